@@ -104,6 +104,23 @@ def do_crypt(case):
     return out
 
 
+def do_ring(q):
+    """ZigbeeDecryptor(*keys).attempt_to_decrypt on ONE packet object.  q = {"keys": [hex], "frame": hex, "mgr": "nwk"|"aps"}"""
+    from whad.zigbee.crypto import ZigbeeDecryptor
+    pkt = Dot15d4(bytes.fromhex(q["frame"]))
+    before = raw(pkt).hex()
+    try:
+        res, ok = ZigbeeDecryptor(*[bytes.fromhex(k) for k in q["keys"]]).attempt_to_decrypt(pkt)
+    except Exception as e:  # noqa
+        return {"exc": type(e).__name__}
+    r = {"success": bool(ok), "object_after": raw(pkt).hex(), "object_before": before, "in": dis(Dot15d4(bytes.fromhex(q["frame"])), BASE[q["mgr"]])}
+    if ok:
+        r["data"] = raw(res).hex() if hasattr(res, "build") else bytes(res).hex()
+        if ZigbeeSecurityHeader in pkt:
+            r["object_data"] = bytes(pkt[ZigbeeSecurityHeader].data).hex()
+    return r
+
+
 def do_seq(q):
     """ONE manager instance, a sequence of independent calls.
     q = {"mgr", "key", "inp", "calls": [{"op": "enc"|"dec", "frame": hex, "set": null|{...}, "via": "obj"|"bytes"}]}"""
@@ -358,7 +375,8 @@ def main():
            "hash": [do_hash(c) for c in req.get("hash", [])],
            "aps_data": [do_aps_data(c) for c in req.get("aps_data", [])],
            "aps": [do_aps(h) for h in req.get("aps", [])],
-           "seq": [do_seq(q) for q in req.get("seq", [])]}
+           "seq": [do_seq(q) for q in req.get("seq", [])],
+           "ring": [do_ring(q) for q in req.get("ring", [])]}
     print("RESULT " + json.dumps(res))
 
 main()
